@@ -54,13 +54,14 @@ FAMILIES = {
         ("run", fam(Dirs=["a", IC], Leaves=["f", IA], MaxFiles=2, MaxDepth=2, Packs=["dir", "tar", "zip"],
                     Wraps=[False, True], Overrides=["none", "SosArchiveContext"], Modes=["run"])),
         ("plug", fam(Dirs=["a", SOS, PM], Leaves=["f", IA], MaxFiles=2, Plugs=["on"])),
-        # the classes of inputs on which the code is known to leave the reference
-        ("tie", fam(Dirs=["a", "b", "cc"], Leaves=["f", IA, IC], MaxFiles=2, MaxDepth=2, Admit=["tie"])),
-        ("shadow", fam(Dirs=["a", NM_IC, IC], Leaves=["f", IC], MaxFiles=2, Admit=["shadow"])),
+        # the classes of inputs on which the code is known to leave the reference (emitted from the specified
+        # mechanism; the transcription of the code is refuted on them by the REFUTE runs below)
+        ("tie", fam(Dirs=["a", "b", "cc"], Leaves=["f", IA, IC], MaxFiles=2, MaxDepth=2, Mech="intended")),
+        ("shadow", fam(Dirs=["a", NM_IC, IC], Leaves=["f", IC], MaxFiles=2, Mech="intended")),
         ("under", fam(Dirs=["a", IC, JB], Leaves=["f", IA], MaxFiles=2, MaxDepth=2, Packs=["dir", "tar"],
-                      Wheres=["under"], Admit=["under"])),
+                      Wheres=["under"], Mech="intended")),
         ("blank", fam(Dirs=["a"], Leaves=["f", IA], MaxFiles=1, MaxDepth=2, Packs=["tar", "zip"], Spaces=["exdir"],
-                      Injects=["none", "raise"], Admit=["blank"])),
+                      Injects=["none", "raise"], Mech="intended")),
     ]),
 }
 FAMILIES["thorough"] = collections.OrderedDict(FAMILIES["quick"])
@@ -79,13 +80,13 @@ FAMILIES["thorough"].update([
     ("run", fam(Dirs=["a", IC, META], Leaves=["f", IA, "c1"], MaxFiles=3, MaxDepth=2, Packs=["dir", "tar", "tgz", "zip"],
                 Wraps=[False, True], Overrides=["none", "SosArchiveContext"], Modes=["run"])),
     ("plug", fam(Dirs=["a", SOS, PM, IC], Leaves=["f", IA], MaxFiles=2, Plugs=["on"], Packs=["dir", "tgz"])),
-    ("tie", fam(Dirs=["a", "b", "cc", SOS], Leaves=["f", IA, IC], MaxFiles=3, MaxDepth=2, Admit=["tie"])),
+    ("tie", fam(Dirs=["a", "b", "cc", SOS], Leaves=["f", IA, IC], MaxFiles=3, MaxDepth=2, Mech="intended")),
     ("under", fam(Dirs=["a", IC, JB], Leaves=["f", IA], MaxFiles=2, MaxDepth=2, Packs=["dir", "tar", "zip"],
-                  Wheres=["under"], Modes=["api", "run"], Admit=["under"])),
+                  Wheres=["under"], Modes=["api", "run"], Mech="intended")),
 ])
 
 # the same universe with the SPECIFIED mechanism, every class of inputs included: all invariants hold
-DESIGN = fam(Dirs=["a", "b", IC, NM_IC, SOS], Leaves=["f", IA, IC], MaxFiles=2, Packs=["dir", "tar", "text", "badgz"],
+DESIGN = fam(Dirs=["a", "b", IC, NM_IC], Leaves=["f", IA, ARC], MaxFiles=2, MaxDepth=2, Packs=["dir", "tar", "text", "badgz"],
              Wraps=[False, True], Evils=["none", "dotdot"], Overrides=["none", "SosArchiveContext"],
              Wheres=["plain", "under"], Injects=["none", "raise"], Spaces=["none", "exdir"], Mech="intended")
 # the transcription of the code on the classes of inputs it is known to mishandle: TLC must refute these
